@@ -32,6 +32,16 @@ func init() {
 	netutil.GetAgentBindAddrFunc = netutil.GetMockGetAgentBindAddrFunc("0.0.0.0")
 }
 
+// setDualStack pins the process-global "is the agent dual-stack" answer that the
+// state store consults inside apply (identical configuration on every replica).
+func setDualStack(on bool) {
+	if on {
+		netutil.GetAgentBindAddrFunc = netutil.GetMockGetAgentBindAddrFunc("::")
+	} else {
+		netutil.GetAgentBindAddrFunc = netutil.GetMockGetAgentBindAddrFunc("0.0.0.0")
+	}
+}
+
 var nullLogger = hclog.NewNullLogger()
 
 // recPublisher records event batches handed over by txn.Commit (state.EventPublisher).
@@ -212,6 +222,22 @@ func (r *Replica) Dump(skipFields ...string) Dump {
 	d := Dump{}
 	err := r.State().WalkAllTables(func(table string, item interface{}) bool {
 		d[table] = append(d[table], simkit.Canon(item, skipFields...))
+		return true
+	})
+	if err != nil {
+		panic(err)
+	}
+	for _, rows := range d {
+		sort.Strings(rows)
+	}
+	return d
+}
+
+// DumpMasked is Dump with the Raft indexes of derived row types masked.
+func (r *Replica) DumpMasked(mask map[string]bool) Dump {
+	d := Dump{}
+	err := r.State().WalkAllTables(func(table string, item interface{}) bool {
+		d[table] = append(d[table], simkit.CanonMasked(item, mask))
 		return true
 	})
 	if err != nil {
